@@ -45,6 +45,7 @@ func Layer(r *ev.Run) {
 	if only >= 0 {
 		return
 	}
+	formsPart(r)
 	r.RequireAtLeast("mysql_search_statements_equal_reference", 100)
 	r.RequireAtLeast("mysql_search_two_searchable_placeholders_equal_reference", 15)
 	r.RequireAtLeast("mysql_index_pairs_compared", 400)
